@@ -10,12 +10,16 @@ MODELLED = 'writeDelimiter/writeNewLine/processCommand/SCPI_Parse and every SCPI
 ASSUMPTIONS = ['a unit "responds" iff its handler emitted at least one complete result item (DESIGN.md section 9)',
                'scripts of this stream complete every streamed block they start (unfinished blocks are exercised by C09/C17)']
 
+SYSERR_ITEM = b'\x00SYSERR\x00'      # placeholder: the oracle accepts any <code>,"<488.2 string>" here (what is popped depends on the queue)
 NAMES = [b"A?", b"B?", b"N?", b"E?", b"CMD", b"OUT", b"TEST:A?", b"TEST:B?", b"TEST:N?", b"TEST:CMD", b"*IDN?", b"*RST"]
 
 
 def result_ops(R):
     """one result item: list of ops and the bytes it contributes"""
-    k = R.choice(['i32', 'u32', 'i64', 'u64', 'bool', 'text', 'chars', 'block', 'stream'])
+    k = R.choice(['i32', 'u32', 'i64', 'u64', 'bool', 'text', 'chars', 'block', 'stream', 'syserr'])
+    if k == 'syserr':
+        # SYST:ERR? style item on an empty queue: 0,"No error" (one item: number, comma and string belong together)
+        return ['SYSTERR'], SYSERR_ITEM
     if k == 'i32':
         v = R.choice([0, 1, -1, 2147483647, -2147483648, R.randint(-10**6, 10**6)])
         return ['RI32:%d' % v], str(v).encode()
@@ -76,6 +80,8 @@ def make(R):
         units = []
         for _ in range(R.choice([1, 1, 2, 2, 3, 3, 4, 5, 6])):
             h = R.choice([b"A?", b"B?", b"N?", b"E?", b"CMD", b"OUT", b":TEST:A?", b"TEST:B?", b"*IDN?", b"*RST", b"FOO?", b"a?", b"test:n?"])
+            if R.random() < 0.08:
+                h = R.choice([b"@", b"A? 1 2", b"$", b"B? (", b"N? 'x"])      # a unit that is not well formed: no handler, -1xx, no output
             units.append(R.choice([b'', b' ']) + h)
         msgs.append(b';'.join(units) + R.choice([b'\n', b'\r\n']))
     return gen.scenario(256, 16, table, [('I', m) for m in msgs]), expect
@@ -109,6 +115,11 @@ def oracle_factory(expects):
             want = b';'.join(b','.join(u) for u in units) + (b'\r\n' if units else b'')
             got = vf.outbytes(m)
             nf = sum(1 for e in m if e == 'F')
+            if SYSERR_ITEM in want:
+                import re as _re
+                pat = _re.escape(want).replace(_re.escape(SYSERR_ITEM), b'-?[0-9]+,"(?:[^"]|"")*"')
+                if _re.fullmatch(pat, got, _re.S):
+                    got = want
             if got != want:
                 bad.append(('framing', 'message produced %r, the framing of its responding units is %r' % (got, want)))
                 break
